@@ -13,6 +13,7 @@ LINES_PER_OP = {
     "SchedDriver": lambda op: 1,
     "KvsmDriver": lambda op: 1,
     "FsDriver": lambda op: 1,
+    "AgentDriver": lambda op: 1,
     "NHApiDriver": lambda op: 1,
     "ApiDriver": lambda op: 1,
     "ElectDriver": lambda op: 1,
@@ -103,6 +104,13 @@ CHECKS = {
                      "args": {"quick": ["-n", "12"], "thorough": ["-n", "400"]}}],
         "rule": "a real NodeHost hosting 1..4 shards (ids drawn from 6) of mixed state-machine types (KVTest regular, ConcurrentKVTest concurrent, DiskKVTest on-disk) started in a random order, the real NodehostAPI on top: 14 GetSession queries per NodeHost for hosted and non-hosted ids in random order (repeats exercise the cache); for every session handed out for a hosted shard a Propose and a Read through the facade are compared with the state machine's result and a local SyncRead; sessions are converted to the wire form and back; every dragonboat / context error value plus unlisted ones through GRPCError; answers compared with the Lean model; evaluations = queries + error mappings; non-trivial = NodeHosts",
         "assumptions": ["dragonboat SyncGetSession / SyncPropose / SyncRead behave as documented (the facade's transparency is compared against them)"],
+    },
+    "C18": {
+        "lean": ["DrummerVerif.Props.C18"],
+        "streams": [{"cmd": "agent", "driver": "AgentDriver", "sections": None, "eval_re": r"^case:", "timeout": 1500,
+                     "args": {"quick": ["-reports", "300", "-dispatch", "6"], "thorough": ["-reports", "8000", "-dispatch", "60"]}}],
+        "rule": "the real DrummerClient on real in-process NodeHosts against a scripted Drummer gRPC service on loopback. (A) report construction: 1..4 hosted replicas, each with a local membership version 1..20 or pending, Drummer advertising for each shard nothing / one less / equal / more, with and without log info (0..3 records): the pb.NodeHostInfo the scripted Drummer receives is compared with the model; (B) dispatch: batches for 1..3 shards, per shard a launch / kill / launch ... sequence of 1..4 requests (fresh replica id per launch), randomly interleaved across shards, executed by HandleMasterRequests on a real NodeHost: the final running state and erased data of every shard reveal order and at-most-once execution, handling the empty queue again must change nothing; (C) one scripted scenario on four NodeHosts: launch with zipped peers, add with a wrong then the right version, join, delete delivered twice, kill + erase, restart (runs nothing, reports its log), restore, restore without data; evaluations = report cases + batches + scenario steps",
+        "assumptions": ["dragonboat's NodeHost API (StartReplica, RequestAddReplica / RequestDeleteReplica with ordered config change, StopReplica, RemoveData, HasNodeInfo) behaves as documented", "infrastructure timeouts (elections, replication) make a scenario step inconclusive, never a violation"],
     },
     "C06": {
         "lean": ["DrummerVerif.Props.C06"],
